@@ -25,6 +25,7 @@ type SolveOpts struct {
 	TimeoutMs int
 	WorkDir   string
 	Cross     bool // thorough: cross-check every obligation on all solvers
+	NoRetry   func(name string) bool // obligations that are not claimed / recorded findings: one attempt only
 }
 
 func runSolver(ctx context.Context, solver string, file string, timeoutMs int) (string, error) {
@@ -130,6 +131,9 @@ func Solve(f *FuncVC, opts SolveOpts) []*Verdict {
 		verdicts[i] = v
 		if f.Obligs[i].IsCover {
 			// vacuity guard: fails only if the exit is provably unreachable
+			continue
+		}
+		if opts.NoRetry != nil && opts.NoRetry(f.Obligs[i].Name) {
 			continue
 		}
 		if st != "unsat" || opts.Cross {
